@@ -243,8 +243,20 @@ class EvolveAppTask(BaseEvolutionTask):
                         task_sql = task_info.get('sql')
 
                         if task_sql:
+                            # Only report the evolutions that are part of
+                            # this batch. A task's evolutions may be split
+                            # across batches by dependencies.
+                            batch_labels = set(
+                                task_info.get('evolutions') or [])
+                            batch_evolutions = [
+                                evolution
+                                for evolution in task.new_evolutions
+                                if evolution.label in batch_labels
+                            ] or None
+
                             task.execute(sql_executor=sql_executor,
                                          sql=task_sql,
+                                         evolutions=batch_evolutions,
                                          **kwargs)
             elif batch_type == UpgradeMethod.MIGRATIONS:
                 assert migrating
